@@ -1,5 +1,5 @@
-CONSTANTS Bug = "CowKeepsZeroFrame"  Emit = FALSE
-CONSTANT Configs <- MCBugs
+CONSTANTS Bug = ""  Emit = TRUE
+CONSTANT Configs <- MCFull
 INIT Init
 NEXT Next
 INVARIANT NoMismatch
